@@ -91,6 +91,9 @@ func (e *poolChainErr) Unwrap() error { return e.cause }
 func installPoolHook() {
 	redact.RegisterRedactErrorFn(func(err error, p redact.SafePrinter, verb rune) {
 		p.SafeString("hooked:")
+		if _, isPtr := err.(*poolValErr); isPtr {
+			p.SafeString("(*poolValErr!)") // poolValErr has a value receiver: the hook is handed the error itself, never its address
+		}
 		runtime.Gosched()
 		time.Sleep(20 * time.Microsecond)
 		if c, ok := err.(*poolChainErr); ok {
@@ -202,7 +205,8 @@ var poolCalls = []poolCall{
 		return sb.String()
 	}},
 	{"err-chain", func() string {
-		return string(redact.Sprintf("%v|%+v", &poolChainErr{"outer", theErr}, []error{theErr, poolValErr{"v"}}))
+		vals := []poolValErr{{"t1"}, {"t2"}} // a statically typed slice: its elements are addressable
+		return string(redact.Sprintf("%v|%+v|%v|%v", &poolChainErr{"outer", theErr}, []error{theErr, poolValErr{"v"}}, vals, &struct{ E poolValErr }{poolValErr{"f"}}))
 	}},
 	// byte arrays passed by value (not addressable): two kinds with different contents, so that any scratch space shared
 	// between calls shows when goroutines run them side by side
@@ -211,6 +215,16 @@ var poolCalls = []poolCall{
 	}},
 	{"bytearray-b", func() string {
 		return string(redact.Sprintf("%x|%s|%q|%X", [8]byte{9, 9, 9, 9, 9, 9, 9, 9}, [5]byte{'w', 'o', 'r', 'l', 'd'}, [3]byte{'x', 'y', 'z'}, [32]byte{0x11, 0x12, 31: 0x1F}))
+	}},
+	// a long pre-redacted operand with spare capacity, printed twice with different tails: the first result must still
+	// be what it was after the second call (nothing may keep writing into the caller's slice or into a returned string)
+	{"rbytes-long", func() string {
+		rb := make([]byte, 0, 256)
+		rb = append(rb, []byte("‹"+strings.Repeat("r", 70)+"› safe-part ")...)
+		a := redact.Sprint(redact.RedactableBytes(rb), "tail-one")
+		acopy := string(append([]byte(nil), a...))
+		b := redact.Sprint(redact.RedactableBytes(rb), "TAIL-TWO-LONGER")
+		return fmt.Sprintf("%s|%s|%v|%d", a, b, string(a) == acopy, len(rb))
 	}},
 	{"markers", func() string { return string(redact.Sprintf("%s %v", "a‹b›\n", []byte("x›"))) }},
 }
@@ -397,7 +411,7 @@ func poolHistory(args []string) {
 	}
 	if *hook {
 		// the hook renders every error it is handed, also the ones it prints itself through the printer it was given
-		if got, want := guardCall(callByName("err-chain").fn), "hooked:‹outer› <- hooked:‹wrapped-err›|[hooked:‹wrapped-err› hooked:‹v›]"; got != want {
+		if got, want := guardCall(callByName("err-chain").fn), "hooked:‹outer› <- hooked:‹wrapped-err›|[hooked:‹wrapped-err› hooked:‹v›]|[hooked:‹t1› hooked:‹t2›]|&{hooked:‹f›}"; got != want {
 			rep.Violate("pool:history:hook-chain", fmt.Sprintf("with the hook registered, an error chain and a slice of errors print %q, the hook alone renders them as %q", got, want), poolCase{"pool-history", nil, "err-chain"})
 		}
 		// registration is itself an earlier call: a hook registered (or removed) after printers have been used and
